@@ -18,7 +18,7 @@ PROPS = {
     "C03": {"rt": ["rt_executor"], "level": "proof", "assumes": [A_PY, A_OS, A_PLAN]},
     "C04": {"rt": ["rt_executor", "rt_env"], "level": "proof", "assumes": [A_PY, A_OS, A_PLAN]},
     "C05": {"rt": ["rt_versions"], "level": "proof", "assumes": [A_PY, A_GIT, A_SQL]},
-    "C06": {"rt": ["rt_tee", "rt_crash", "rt_archive"], "level": "proof", "assumes": [A_PY, A_SQL, A_LIB]},
+    "C06": {"rt": ["rt_tee", "rt_crash", "rt_archive", "rt_sigchld"], "level": "proof", "assumes": [A_PY, A_SQL, A_LIB]},
     "C07": {"rt": ["rt_env", "rt_planner"], "level": "proof", "assumes": [A_PY, A_LIB]},
     "C08": {"rt": ["rt_versions"], "level": "proof", "assumes": [A_PY, A_SQL, A_LIB]},
     "C09": {"rt": ["rt_executor", "rt_sigchld"], "level": "proof", "assumes": [A_PY, A_OS, A_SIG, A_PLAN]},
